@@ -57,7 +57,30 @@ def streams(ctx):
     pool = [s for s in itertools.product((2, 4, 6), repeat=3) if s not in fam and s[0] * s[1] * s[2] <= 48]
     if pool:
         fam = fam + [pool[int(rng.integers(0, len(pool)))]]
-    return [one_stream(ctx, 'supported', fam, big), one_stream(ctx, 'outside-family', outside, [])]
+    return [one_stream(ctx, 'supported', fam, big), one_stream(ctx, 'outside-family', outside, []),
+            rank_stream(ctx, fam + list(big))]
+
+
+def rank_stream(ctx, sizes):
+    """`rank-family-z`: the model's `selCells` (theorem `z_generators_independent_partial`, the Z-type
+    half of an independent family of generators: all cells but three) evaluated on the
+    IMPLEMENTATION's parity-check matrix: membership, distinctness, count 2 LxLyLz - 3, GF(2) rank of
+    the selected rows = their number."""
+    import panqec.codes as C
+    from harness.core import Stream
+    from harness.lat_cubic3d import rank_post
+    klass = getattr(C, CLASS)
+    s = Stream(f'lat-{CLASS}-rank-family-z', post=rank_post(klass))
+    for size in sizes:
+        if min(size) < 2:
+            continue
+        m = 2 * size[0] * size[1] * size[2] - 3
+        s.add(f'lat {CLASS} {size[0]} {size[1]} {size[2]} rankfamilyz', f'members {m} rank {m}',
+              {'code': f'{CLASS}{tuple(size)}',
+               'what': 'independent family of 2*LxLyLz-3 cell generators (theorem '
+                       'z_generators_independent_partial) evaluated on stabilizer_matrix'},
+              tag='rank-family-z')
+    return s.run()
 
 
 def one_stream(ctx, fam, sizes, bundle_only):
